@@ -502,12 +502,12 @@ def main(chk):
     c09.setup()
     fixes = c09.replay_witnesses(chk, pid_map={"F-C09a": "F-C10a", "F-C09b": "F-C10b", "F-C09c": None,
                                                  "F-C09d": None})
-    for fid_, ok in zip(["F-C09a", "F-C09b", "F-C09c"], fixes):
+    for fid_, ok in zip(["F-C09a", "F-C09b", "F-C09c", "F-C09d"], fixes):
         if not ok:
             # every C10 theorem is about `Fixes.repaired`: on this tree the repaired behaviour is REQUIRED
             chk.fail(f"the tree exhibits the pinned (unrepaired) behaviour of {fid_}; the C10 theorems speak about "
                      "the repaired step functions only", c09.WITNESS[fid_][0], "witness of " + fid_ + " fails", ())
-    chk.extra["fixes_detected"] = dict(zip(["anyRow", "lqList", "stale"], fixes))
+    chk.extra["fixes_detected"] = dict(zip(["anyRow", "lqList", "stale", "nanSafe"], fixes))
     ent = next((e for e in chk.known if e["id"] == "F-C10c"), None)
     if ent is not None:
         w = ent["witness"]
